@@ -19,6 +19,7 @@ def T(*xs): return ('t', tuple(xs))
 def IT(sized, *xs): return ('it', sized, tuple(xs))
 def M(*kvs): return ('m', tuple(kvs))
 def P(s): return ('p', tuple(ord(c) for c in s))
+def X(s): return ('x', tuple(ord(c) for c in s))       # invalid value (an InvalidOperation error with this detail)
 
 
 def flat(v):
@@ -35,6 +36,7 @@ def flat(v):
     if t == 'it': return [9, v[1], len(v[2])] + [x for e in v[2] for x in flat(e)]
     if t == 'm': return [10, len(v[1])] + [x for k, e in v[1] for x in flat(k) + flat(e)]
     if t == 'p': return [11, len(v[1])] + list(v[1])
+    if t == 'x': return [12, len(v[1])] + list(v[1])
     raise ValueError(v)
 
 
@@ -66,6 +68,7 @@ def parse(tk, i=0):
         return ('m', tuple(xs)), j
     if t == 11:
         n = tk[i + 1]; return ('p', tuple(tk[i + 2:i + 2 + n])), i + 2 + n
+    if t == 12: return ('x', ()), i + 1
     raise ValueError("bad value encoding %r at %d" % (tk, i))
 
 
@@ -85,10 +88,13 @@ def show(v):
     if t == 'it': return ["lazy?[", "lazy[", "linkedlist["][v[1]] + ", ".join(show(x) for x in v[2]) + "]"
     if t == 'm': return "{" + ", ".join(show(k) + ": " + show(x) for k, x in v[1]) + "}"
     if t == 'p': return "plain<" + "".join(chr(c) for c in v[1]) + ">"
+    if t == 'x': return "invalid<" + "".join(chr(c) for c in v[1]) + ">"
 
 
 def has_nan(v):
+    """contains a NaN or an invalid value: the values that are not == to themselves"""
     t = v[0]
+    if t == 'x': return True
     if t == 'f': return (v[1] & 0x7fffffffffffffff) > 0x7ff0000000000000
     if t in ('l', 't'): return any(has_nan(x) for x in v[1])
     if t == 'it': return any(has_nan(x) for x in v[2])
@@ -178,7 +184,7 @@ def hash_dependent(a, b):
 
 
 def kind_rank(v):
-    return {'u': 0, 'n': 1, 'b': 2, 'i': 3, 'f': 3, 's': 4, 'y': 5, 'l': 6, 't': 6, 'm': 7, 'it': 8, 'p': 9}[v[0]]
+    return {'u': 0, 'n': 1, 'b': 2, 'i': 3, 'f': 3, 's': 4, 'y': 5, 'l': 6, 't': 6, 'm': 7, 'it': 8, 'p': 9, 'x': 10}[v[0]]
 
 
 # ----------------------------------------------------------------------------------------
@@ -205,7 +211,8 @@ def pool_a(thorough):
           M(), M((S("a"), I(1))), M((S("a"), I(1)), (S("b"), I(2))), M((S("b"), I(2)), (S("a"), I(1))), M((S("a"), B(1))),
           M((I(1), S("x"))), M((F(1.0), S("x"))), M((B(1), S("x"))), M((S("a"), L(I(1)))), M((S("a"), IT(0, I(1)))),
           P("a"), P("b"),
-          L(M((S("a"), I(1)))), L(T(I(1))), L(IT(0, I(1))), L(L(I(1)), L(I(2))), T(L(I(1))), L(F(QNAN)), M((S("a"), F(QNAN)))]
+          L(M((S("a"), I(1)))), L(T(I(1))), L(IT(0, I(1))), L(L(I(1)), L(I(2))), T(L(I(1))), L(F(QNAN)), M((S("a"), F(QNAN))),
+          X("a"), X("b"), L(X("a")), T(X("b")), IT(0, X("a"))]     # (a map literal cannot hold one: evaluating it raises the error)
     if thorough:
         p += [I(2**53 - 1), I(2**53 + 2), I(2**64 - 1024, 1), I(2**64 - 1025, 1), I(2**127 - 2**73, 2), I(2**127 + 2**74, 3), I(-2**63 + 1),
               F(2.0**53 + 4), F(2.0**64 - 2048), F(2.0**127 - 2.0**74), F(2.0**127 + 2.0**75), F(-1.5), F(3.0), F(1e-300), F(-1e300),
@@ -267,7 +274,11 @@ def check_pair_laws(tab, profile, report):
                 report("cmp-agrees-with-eq", "a == b is %s but cmp(a, b) = %s" % (bool(eq), CMPN.get(cmp_)), (i, j), profile)
             if eq == 1 and heq != 1:
                 report("eq-implies-hash", "a == b but the hashes differ", (i, j), profile)
-            # the template operators give the same answers as the API
+            # the template operators give the same answers as the API (loading an invalid value raises its error)
+            if max(tlt, teq, tin, tkey) >= 100:
+                if not (a[0] == 'x' or b[0] == 'x'):
+                    report("template-total", "a template comparison failed with error %s" % ERR_NAMES.get(max(tlt, teq, tin, tkey) - 100), (i, j), profile)
+                continue
             if tlt != (1 if cmp_ == LT else 0):
                 report("template-lt", "`a < b` renders %d but cmp(a, b) = %s" % (tlt, CMPN.get(cmp_)), (i, j), profile)
             if teq != eq:
